@@ -249,6 +249,8 @@ def check(ix, rep):
         units.check_transformer(ix, rep, None, None, 'dense', func=nf)
     store.check_pastifier_remap(ix, rep)
     check_pastify_driver(ix, rep, pcls, hcls)
+    # the LTL front end has a driver of its own (same obligations: C15 says the two front ends denote the same monitor on untimed formulas)
+    check_pastify_driver(ix, rep, ix.find_class('rtamt.pastifier.ltl.pastifier', 'LtlPastifier'), ix.find_class('rtamt.pastifier.ltl.horizon', 'LtlHorizon'))
     # the rewritten tree contains no future operator: node classes the pastifier can build
     pb = M.pastifier_builds(ix)
     fut = sorted(set(pb) & {'Eventually', 'Always', 'Until', 'TimedEventually', 'TimedAlways', 'TimedUntil', 'Next', 'StrongNext'})
